@@ -480,6 +480,14 @@ func oracleC08(p *Pair, env *Env, a [][]byte) *Failure {
 	sbAll, sbOne := mkSandbox(env), mkSandbox(env)
 	defer os.RemoveAll(sbAll)
 	defer os.RemoveAll(sbOne)
+	if len(a) > 3 && string(a[3]) == "dotparent" {
+		// the checkout is kept below directories whose names start with a dot or end in .ra (a CI cache, a
+		// dot-directory of a home): where a tree is kept says nothing about its files
+		sbAll = filepath.Join(sbAll, ".ci-cache", "work.ra", "checkout")
+		sbOne = filepath.Join(sbOne, ".ci-cache", "work.ra", "checkout")
+		_ = os.MkdirAll(sbAll, 0o755)
+		_ = os.MkdirAll(sbOne, 0o755)
+	}
 	_ = t.write(sbAll)
 	_ = t.write(sbOne)
 	if len(a) > 3 && string(a[3]) == "symlink" {
@@ -666,6 +674,9 @@ func genC08(r *rand.Rand, tier string, env *Env) []Case {
 				if (i+o)%4 == 3 {
 					oargs = append(oargs, []byte("symlink"))
 					kindC += "+symlink"
+				} else if (i+o)%4 == 1 {
+					oargs = append(oargs, []byte("dotparent"))
+					kindC += "+dotparent"
 				}
 				cases = append(cases, Case{Kind: kindC, Oracles: []Op{{"c08.all", oargs}}})
 			}
